@@ -108,6 +108,8 @@ def gen(rng, tier, idx):
     # happen deep inside long sessions (near the operation limit, in the last section of a spend, on large items)
     scn["prefix_permille"] = rng.weighted([(4, 0), (3, rng.below(1001)), (2, rng.range(700, 1000)), (1, 1000)])
     scn["regime"] = "clean" if rng.chance(80) else "fault"
+    # the black-box observers quadruple the number of delivered lines; half of the cases rely on the white-box probe alone
+    scn["observe"] = bool(scn.get("observe", True)) and rng.chance(50)
     scn["faults"] = []
     if scn["regime"] == "fault":
         k = rng.weighted([(3, "SINK_ERR"), (3, "HIST"), (4, "STEP")])
